@@ -25,6 +25,11 @@ pub fn run(ctx: &mut Ctx, reg: &Registry) {
             if let Outcome::Ok(file) = e.ops.save(v, 0, Container::CryptoMem) {
                 if matches!(e.ops.load(&file, 0, Container::CryptoMem), Outcome::Ok((ref x, _)) if x == v) {
                     ctx.count("crypto_streams");
+                    ctx.sample("tampered-stream", {
+                        let mut j = case_json(&s.label, "", 0, v, Some(&file));
+                        j.push("modifications", J::s(if file.len() <= 120 || (!ctx.quick() && file.len() <= 300) { format!("every byte 0..{} x every other value; every truncation; key bit flips", file.len()) } else { format!("every byte 0..{} x 5 replacements; every truncation; key bit flips", file.len()) }));
+                        j
+                    });
                     let exhaustive = file.len() <= 300;
                     for pos in 0..file.len() {
                         let repls: Vec<u8> = if exhaustive && !ctx.quick() || (exhaustive && file.len() <= 120) {
@@ -67,6 +72,11 @@ pub fn run(ctx: &mut Ctx, reg: &Registry) {
             if let Outcome::Ok(file) = e.ops.save(v, 0, Container::EncryptedFile) {
                 if matches!(e.ops.load_enc_pw(&file, 0, PASSWORD), Outcome::Ok(ref x) if x == v) {
                     ctx.count("encrypted_files");
+                    ctx.sample("tampered-file", {
+                        let mut j = case_json(&s.label, "", 0, v, Some(&file));
+                        j.push("modifications", J::s("wrong passwords (prefix, suffix, case, empty, NUL-suffixed, random); every truncation; random bit flips"));
+                        j
+                    });
                     let mut pws: Vec<String> = vec![
                         "".into(),
                         PASSWORD[..PASSWORD.len() - 1].to_string(),
